@@ -5,7 +5,7 @@ use crate::c01::accessor_check;
 use crate::clonelab::*;
 use crate::codec;
 use crate::httpd::Script;
-use crate::memdev::{Fault, MemDev};
+use crate::memdev::{Fault, HoleFile, MemDev};
 use crate::netchecks::{runs_of, HttpLab};
 use crate::refchunk::*;
 use crate::rep::*;
@@ -273,6 +273,52 @@ pub fn run(rep: &mut Report) {
                                                 let got: Vec<Option<(u64, u64)>> = log.iter().skip(2).map(|l| l.range).collect();
                                                 if got != want {
                                                     agg.viol("http-requests-not-maximal-runs", || detail("http clone", json!({"requests": got, "expected": want})));
+                                                }
+                                            }
+                                        }
+                                    }
+                                    // chunk data beyond 4 GiB: the same archive with its chunk data offset moved behind a hole
+                                    // that makes the first stored chunk straddle 2^32 (or start at 2^33 + 1); header re-encoded
+                                    // by the independent encoder, the hole is virtual (server and file insert zeros)
+                                    if count % 8 == 0 || nu <= 1 {
+                                        let target = if count % 16 == 0 { (1u64 << 33) + 1 } else { (1u64 << 32) - 2 };
+                                        let hole = target - built.chunk_data_offset;
+                                        let mut enc = recipe(&rc, nu, &params, comp).enc;
+                                        enc.chunk_data_offset = Some(target);
+                                        let mut far = codec::encode_header(&built.dict, &enc);
+                                        if far.len() != built.header_len {
+                                            machinery("far header length differs".into());
+                                        }
+                                        far.extend_from_slice(&built.bytes[built.header_len..]);
+                                        let at = built.header_len as u64;
+                                        agg.add("far_archives", 1);
+                                        let reader = bitar::archive_reader::IoReader::new(HoleFile { data: far.clone(), at, len: hole, pos: 0 });
+                                        match catch(|| drive_ready(reader_clone(reader))) {
+                                            Err(p) => agg.viol(&format!("panic@{}", panic_site(&p)), || detail("local clone, chunk data beyond 4 GiB", json!(p))),
+                                            Ok(Err(e)) => machinery(e),
+                                            Ok(Ok(Err(e))) => agg.viol("conforming-archive-rejected", || detail("local clone, chunk data beyond 4 GiB", json!({"error": e, "chunk_data_offset": target}))),
+                                            Ok(Ok(Ok(out))) => {
+                                                if out != source {
+                                                    agg.viol("conforming-archive-cloned-wrong", || detail("local clone, chunk data beyond 4 GiB", json!({"chunk_data_offset": target, "output": hex(&out)})));
+                                                }
+                                            }
+                                        }
+                                        lab.server.arm_hole(at, hole, &far, Script { faults: vec![], splits: vec![], keep_alive: true });
+                                        let reader = lab.reader(0);
+                                        match catch(|| lab.rt.block_on(async { tokio::time::timeout(std::time::Duration::from_secs(20), reader_clone(reader)).await })) {
+                                            Err(p) => agg.viol(&format!("panic@{}", panic_site(&p)), || detail("http clone, chunk data beyond 4 GiB", json!(p))),
+                                            Ok(Err(_)) => agg.viol("http-clone-timeout", || detail("http clone, chunk data beyond 4 GiB", json!(null))),
+                                            Ok(Ok(Err(e))) => agg.viol("conforming-archive-rejected", || detail("http clone, chunk data beyond 4 GiB", json!({"error": e, "chunk_data_offset": target}))),
+                                            Ok(Ok(Ok(out))) => {
+                                                if out != source {
+                                                    agg.viol("conforming-archive-cloned-wrong", || detail("http clone, chunk data beyond 4 GiB", json!({"chunk_data_offset": target, "output": hex(&out)})));
+                                                }
+                                                let log = lab.server.log();
+                                                let descs: Vec<(u64, usize)> = built.dict.chunk_descriptors.iter().map(|d| (target + d.archive_offset, d.archive_size as usize)).collect();
+                                                let want: Vec<Option<(u64, u64)>> = runs_of(&descs).iter().map(|r| Some((r.0, r.1 - 1))).collect();
+                                                let got: Vec<Option<(u64, u64)>> = log.iter().skip(2).map(|l| l.range).collect();
+                                                if got != want {
+                                                    agg.viol("http-requests-not-maximal-runs", || detail("http clone, chunk data beyond 4 GiB", json!({"requests": got, "expected": want})));
                                                 }
                                             }
                                         }
